@@ -2875,7 +2875,8 @@ def cbcheck(
         # reorder mass and stiffness:
         m = cbreorder(m, bseto)
         k = cbreorder(k, bseto)
-        i = np.argsort(bseto)
+        # uset rows are in ascending b-set order; put them in `bseto` order:
+        i = np.argsort(np.argsort(bseto))
         uset = uset.iloc[i]
 
         # define "new" order of b-set:
